@@ -891,7 +891,7 @@ def slim(case):
 def make_cases(ctx: Ctx):
     """workflow cases (with initial contents) for this tier"""
     out = []
-    nwf = 10 if ctx.quick() else 24
+    nwf = 10 if ctx.quick() else 40
     scripts = [["vf", "rf:patch", "rf:recreate", "fe", "vfdep", "rf:die"],
                ["vf", "sub", "rf:never", "rf:readonly", "switch", "vfdep"],
                ["vf", "rf:patch", "fesub", "rf:nocreate", "vfdep"]]
@@ -1016,7 +1016,7 @@ def rf_oracle(sc, fg, fm, o, r):
 
 
 def rf_fault_cases(ctx: Ctx, cases, terms):
-    n_sc = 30 if ctx.quick() else 150
+    n_sc = 30 if ctx.quick() else 200
     kinds = [None] + KINDS
     for _ in range(n_sc):
         sc = m.rand_scenario(ctx.rng)
@@ -1136,7 +1136,7 @@ def run(ctx: Ctx):
     total = 0
     for case in make_cases(ctx):
         if not ctx.quick():
-            case["pairs"] = 25
+            case["pairs"] = 40
         total += explore_workflow(ctx, case, cases, terms, budget)
     ctx.count("fault-runs", total)
     lookup_cases(ctx)
